@@ -376,6 +376,7 @@ func runC07(c *core.Ctx) {
 	}
 
 	c07CrossStep(c, pki, fast)
+	c07Clock(c, pki, fast)
 	acc, rej := int64(0), int64(0)
 	for ci, k := range cases {
 		if !c.Mine(ci) {
@@ -436,6 +437,20 @@ func runC07(c *core.Ctx) {
 		dir := filepath.Join(c.WorkDir, fmt.Sprintf("c07-%d", ci))
 		os.MkdirAll(dir, 0755)
 		gen.WriteLink(dir, gen.NewLink("s", nil, nil), signKey, false)
+		if ci%3 == 0 {
+			// the step also lists a key; that functionary's link file is present but was altered after
+			// signing: it does not count, and it must not keep the certificate link from being looked at
+			kk := fast[(ci+5)%len(fast)]
+			if kk.Pub.KeyID == fnKey.Pub.KeyID {
+				kk = fast[(ci+6)%len(fast)]
+			}
+			layout.Steps[0].PubKeys = []string{kk.Pub.KeyID}
+			layout.Keys = gen.KeyMap(kk)
+			if lp, _, werr := gen.WriteLink(dir, gen.NewLink("s", nil, nil), kk.Priv, false); werr == nil {
+				gen.TamperFile(lp)
+			}
+			detail["also_listed_key_with_altered_link"] = true
+		}
 		owner := fast[(ci+3)%len(fast)]
 		lmd, _ := gen.SignedMeta(layout, ci%2 == 0, owner.Priv)
 		// the end-to-end observation alternates between the two entry points and between no / some parameters
@@ -504,6 +519,107 @@ func runC07(c *core.Ctx) {
 // c07CrossStep: a certificate that satisfies the constraint of one step must not
 // be accepted for another step whose constraints it does not satisfy (in either
 // layout order), while it still counts for its own step.
+// c07Clock: "valid at verification time" means the time of the call that is being made, whatever
+// was verified earlier in the process and through whichever entry point. Two histories per entry
+// point: (A) a certificate issued after an earlier verification (valid now: accept), (B) a
+// certificate that was valid during an earlier verification and has expired since (reject).
+// Decided by the bracket of wall-clock readings around the deciding call; a validity boundary
+// inside the bracket is inconclusive.
+func c07Clock(c *core.Ctx, pki *c07PKI, fast []gen.KeyPair) {
+	if c.Shard != 1%c.NShards {
+		return
+	}
+	ok := int64(0)
+	owner, fnKey := fast[0], fast[3]
+	cons := gen.WildcardConstraint()
+	cons.CommonName = "builder"
+	step := gen.Step("s", 1, nil, [][]string{{"ALLOW", "*"}}, [][]string{{"ALLOW", "*"}})
+	step.CertificateConstraints = []intoto.CertificateConstraint{cons}
+	layout := gen.NewLayout([]intoto.Step{step}, nil, nil)
+	layout.RootCas = map[string]intoto.Key{pki.root.Key.KeyID: pki.root.Key}
+	lmd, _ := gen.SignedMeta(layout, false, owner.Priv)
+	rd := filepath.Join(c.WorkDir, "c07-clock-rundir")
+	os.MkdirAll(rd, 0755)
+	os.WriteFile(filepath.Join(rd, "keep"), []byte("x"), 0644)
+	verify := func(dir string, withDir bool) VerifyObs {
+		va := VerifyArgs{Layout: lmd, Keys: gen.KeyMap(owner), LinkDir: dir, Cwd: c.WorkDir}
+		if withDir {
+			va.RunDir = rd
+		}
+		return Verify(va)
+	}
+	mkLink := func(dir string, nb, na time.Time) (*x509.Certificate, error) {
+		os.RemoveAll(dir)
+		os.MkdirAll(dir, 0755)
+		certPEM, cert, _, _ := pki.issue("leaf-under-root", gen.CertSpec{CN: "builder", NotBefore: nb, NotAfter: na}, fnKey)
+		if cert == nil {
+			return nil, fmt.Errorf("cannot issue")
+		}
+		_, _, err := gen.WriteLink(dir, gen.NewLink("s", nil, nil), gen.Functionary{KeyPair: fnKey, CertPEM: certPEM}.SigningKey(), false)
+		return cert, err
+	}
+	for _, first := range []bool{false, true} { // entry point of the earlier verification
+		for _, second := range []bool{false, true} { // entry point of the deciding verification
+			for _, hist := range []string{"issued-after-an-earlier-verification", "expired-since-an-earlier-verification"} {
+				id := fmt.Sprintf("clock/%s/first-with-directory=%v/second-with-directory=%v", hist, first, second)
+				if !c.Want(id) {
+					continue
+				}
+				dir := filepath.Join(c.WorkDir, "c07-clock")
+				c.Begin(id)
+				var cert *x509.Certificate
+				var err error
+				wantAccept := hist == "issued-after-an-earlier-verification"
+				if wantAccept {
+					// an earlier verification of an ordinary certificate, then a certificate issued later
+					if _, err = mkLink(dir, time.Now().Add(-time.Hour), time.Now().Add(time.Hour)); err == nil {
+						verify(dir, first)
+						time.Sleep(3100 * time.Millisecond)
+						cert, err = mkLink(dir, time.Now().Add(-1500*time.Millisecond), time.Now().Add(time.Hour))
+					}
+				} else {
+					cert, err = mkLink(dir, time.Now().Add(-time.Hour), time.Now().Add(2*time.Second))
+					if err == nil {
+						if !verify(dir, first).Accepted() {
+							err = fmt.Errorf("earlier verification did not fall into the validity period")
+						}
+						time.Sleep(time.Until(cert.NotAfter.Add(1500 * time.Millisecond)))
+					}
+				}
+				if err != nil {
+					c.Inconclusive("harness: clock history could not be set up: " + core.MsgClass(err.Error()))
+					c.End(id)
+					continue
+				}
+				t0 := time.Now()
+				obs := verify(dir, second)
+				// the lower-level check, too
+				rp, ip, _ := intoto.LoadLayoutCertificates(layout, nil)
+				direct := cons.Check(cert, layout.RootCAIDs(), rp, ip)
+				t1 := time.Now()
+				c.End(id)
+				c.Eval(2)
+				detail := map[string]any{"history": hist, "not_before": cert.NotBefore.Format(time.RFC3339), "not_after": cert.NotAfter.Format(time.RFC3339), "t0": t0.Format(time.RFC3339Nano), "t1": t1.Format(time.RFC3339Nano), "error": errStr(obs.Err), "direct_error": errStr(direct)}
+				inside := func(t time.Time) bool { return !t.Before(t0.Add(-time.Second)) && !t.After(t1.Add(time.Second)) }
+				if inside(cert.NotBefore) || inside(cert.NotAfter) {
+					c.Inconclusive("certificate validity boundary inside the call bracket")
+					continue
+				}
+				c.Class("clock", hist, first, second)
+				switch {
+				case wantAccept && (!obs.Accepted() || direct != nil):
+					c.Violation(fmt.Sprintf("certificate that is valid at verification time refused after an earlier verification in the same process (second call with directory=%v)", second), id, detail)
+				case !wantAccept && (obs.Accepted() || direct == nil):
+					c.Violation(fmt.Sprintf("certificate that has expired by verification time accepted after an earlier verification in the same process (second call with directory=%v)", second), id, detail)
+				default:
+					ok++
+				}
+			}
+		}
+	}
+	c.Obs("clock_histories_as_expected", ok)
+}
+
 func c07CrossStep(c *core.Ctx, pki *c07PKI, fast []gen.KeyPair) {
 	if c.Shard != 0 {
 		return
